@@ -189,8 +189,12 @@ def run_real(exe, case, timeout=20, keep_dir=False):
         env["ASAN_OPTIONS"] = "detect_leaks=0:abort_on_error=0:exitcode=77:allocator_may_return_null=1"
         env["UBSAN_OPTIONS"] = "halt_on_error=1:exitcode=78:print_stacktrace=0"
         res = Result()
+        def limits():
+            if "/san-" not in exe:
+                try: resource.setrlimit(resource.RLIMIT_AS, (3 << 30, 3 << 30))
+                except Exception: pass
         try:
-            p = subprocess.run(args, input=case.stdin, cwd=d, env=env, capture_output=True, timeout=timeout)
+            p = subprocess.run(args, input=case.stdin, cwd=d, env=env, capture_output=True, timeout=timeout, preexec_fn=limits)
             rc, out, err = p.returncode, p.stdout, p.stderr
         except subprocess.TimeoutExpired as e:
             res.crash = "timeout"; res.inconclusive = True
@@ -204,7 +208,10 @@ def run_real(exe, case, timeout=20, keep_dir=False):
         if SAN_RE.search(err):
             res.sanitizer = SAN_RE.search(err).group(0).decode()
             res.crash = res.crash or "sanitizer"
-        if b"terminate called" in err:
+        if b"std::bad_alloc" in err and b"terminate called" in err:
+            # memory exhaustion beyond the stated bounds: inconclusive, not a crash
+            res.crash = None; res.inconclusive = True
+        elif b"terminate called" in err:
             res.crash = res.crash or "terminate"
         if case.mode == "repl":
             out = BANNER_RE.sub(b"", out, count=1)
@@ -261,7 +268,13 @@ def _big_stack():
 
 def _run_model_chunk(cases):
     text = "".join(case_lines(c) for c in cases)
-    p = subprocess.run([DRV], input=text.encode(), capture_output=True, preexec_fn=_big_stack)
+    try:
+        p = subprocess.run([DRV], input=text.encode(), capture_output=True, preexec_fn=_big_stack, timeout=180 + len(cases))
+        pout, perr, prc = p.stdout, p.stderr, p.returncode
+    except subprocess.TimeoutExpired as e:
+        pout, perr, prc = e.stdout or b"", b"model driver timed out", -999
+    class _P: pass
+    p = _P(); p.stdout, p.stderr, p.returncode = pout, perr, prc
     outs = {}
     for ln in p.stdout.decode().split("\n"):
         if not ln.strip(): continue
